@@ -325,3 +325,11 @@ class VPArr(VReal):
   """A numpy array in the pointwise view (A3): the value of ONE generic element.  Subscripting it (`a[:, k - 1]`,
   `a[:, np.newaxis]`) yields that generic element; arithmetic is the scalar arithmetic of VReal."""
   __slots__ = ()
+
+
+class VSet(V):
+  """A finite set of objects: membership array + exact size (with the cardinality facts assumed at creation)."""
+  __slots__ = ('has', 'size')
+
+  def __init__(self, has, size):
+    self.has, self.size = has, size
